@@ -246,7 +246,7 @@ func checkCommonWordsGate(c *Ctx, p *core.Prog) {
 			}
 			nCalls++
 			arg := call.Common().Args[1]
-			if cl, ok := arg.(*ssa.Call); ok && cl.Call.StaticCallee() != nil && cl.Call.StaticCallee().Name() == "normalizeText" {
+			if cl, ok := arg.(*ssa.Call); ok && p.IsFn(cl.Call.StaticCallee(), core.RootMod, "normalizeText") {
 				continue
 			}
 			rawCallers++
